@@ -5,6 +5,7 @@
   for the code (`cdf /= cdf[-1]` divides by the total weight; `np.interp` needs a non-decreasing `cdf`).
 -/
 import Proofs.C09Lemmas
+import Proofs.C09Chains
 
 namespace Taurex.C09
 open Taurex.Posterior
@@ -159,5 +160,49 @@ theorem derived_trace_in_sample_order {γ β : Type} (f : γ → β) (samples : 
 example : ([0, 2, 4, 1, 3] : List Nat).Perm (List.range 5) ∧
     restoreOrder [0, 2, 4, 1, 3] ["s0", "s2", "s4", "s1", "s3"] = ["s0", "s1", "s2", "s3", "s4"] := by
   decide
+
+/-- **The samples the MultiNest / PolyChord wrappers summarise are the samples of the chains files, unchanged and in file
+    order.**  A chains table (`<base>.txt`, `1-.txt`, `clusters/1-_k.txt`: weight, -2 logL, parameter values) gives one
+    solution whose samples are the columns `2:` and whose weights are column `0` of the table; `<base>post_separate.dat` in
+    MultiNest's layout (`fileOf blocks`: before every mode two empty lines, then one line per sample; modes non-empty, every
+    line with its weight, likelihood and at least one parameter, `n` parameters throughout) gives one solution per mode, in
+    file order, each with exactly the samples and weights of its lines; PolyChord with several clusters gives one solution
+    per cluster file. -/
+theorem chain_files_unchanged :
+    (∀ data : List (List ℝ), nestChainsSingle data = ([data.map (fun r => r.drop 2)], [data.map (fun r => r.getD 0 0)])) ∧
+    (∀ (blocks : List (List (List ℝ))) (n : ℕ), blocks ≠ [] → (∀ b ∈ blocks, b ≠ []) → 1 ≤ n →
+      (∀ b ∈ blocks, ∀ r ∈ b, r.length = n + 2) →
+      nestChainsModes (fileOf blocks)
+        = (blocks.map (fun b => b.map (fun r => r.drop 2)), blocks.map (fun b => b.map (fun r => r.getD 0 0)))) ∧
+    (∀ (nfit nc : ℕ) (data : List (List ℝ)) (cluster : ℕ → List (List ℝ)), nc ≠ 1 →
+      polyChains nfit true nc data cluster
+        = ((List.range nc).map (fun k => (cluster k).map (fun r => (r.drop 2).take nfit)),
+           (List.range nc).map (fun k => (cluster k).map (fun r => r.getD 0 0)), nc)) ∧
+    (∀ (nfit nc : ℕ) (dc : Bool) (data : List (List ℝ)) (cluster : ℕ → List (List ℝ)), dc = false ∨ nc = 1 →
+      polyChains nfit dc nc data cluster
+        = ([data.map (fun r => (r.drop 2).take nfit)], [data.map (fun r => r.getD 0 0)], 1)) := by
+  refine ⟨fun _ => rfl, ?_, ?_, ?_⟩
+  · intro blocks n hne hb hn hlen
+    have hrows : ∀ b ∈ blocks, ∀ r ∈ b, 2 < r.length := fun b hb' r hr => by rw [hlen b hb' r hr]; omega
+    unfold nestChainsModes
+    rw [splitModes_fileOf blocks hne hb hrows]
+    simp only [List.map_map]
+    congr 1
+    apply List.map_congr_left
+    intro b hb'
+    exact modeArray_rect _ n (fun r hr => by
+      obtain ⟨r0, hr0, rfl⟩ := List.mem_map.1 hr
+      rw [List.length_drop, hlen b hb' r0 hr0]; omega)
+  · intro nfit nc data cluster h1
+    simp [polyChains, h1, tableSamplesN, tableWeights]
+  · intro nfit nc dc data cluster h
+    rcases h with h | h
+    · simp [polyChains, h, tableSamplesN, tableWeights]
+    · cases dc <;> simp [polyChains, h, tableSamplesN, tableWeights]
+
+example : nestChainsModes (fileOf [[[(1 : ℝ), 0, 7, 8], [3, 0, 9, 10]], [[2, 0, 5, 6]]])
+    = ([[[7, 8], [9, 10]], [[5, 6]]], [[1, 3], [2]]) :=
+  (chain_files_unchanged.2.1 [[[(1 : ℝ), 0, 7, 8], [3, 0, 9, 10]], [[2, 0, 5, 6]]] 2 (by simp) (by simp) (by norm_num)
+    (by simp))
 
 end Taurex.C09
